@@ -80,6 +80,17 @@ impl<'de, R: Read<'de>> Deserializer<R> {
             .map(|code| code.and_then(|code| code.try_into()))
     }
 
+    /// Consume and discard `n` bytes without allocating in proportion to `n`
+    fn skip_bytes(&mut self, mut n: usize) -> Result<(), Error> {
+        let mut scratch = [0u8; 64];
+        while n > 0 {
+            let k = n.min(scratch.len());
+            self.reader.read_exact(&mut scratch[..k])?;
+            n -= k;
+        }
+        Ok(())
+    }
+
     fn get_elem_code_or_read_format_code(&mut self) -> Option<Result<EncodingCodes, Error>> {
         match &self.elem_format_code {
             Some(c) => Some(Ok(c.clone())),
@@ -894,7 +905,12 @@ where
 
                 // If count is zero, jump to visitor
                 match count {
-                    0 => visitor.visit_seq(ArrayAccess::new(self, len, count)),
+                    0 => {
+                        // An empty array may still carry its element constructor: skip
+                        // what the size field covers beyond the count
+                        self.skip_bytes(len.saturating_sub(1))?;
+                        visitor.visit_seq(ArrayAccess::new(self, 0, count))
+                    }
                     _ => {
                         let format_code = self
                             .read_format_code()
@@ -925,7 +941,12 @@ where
 
                 // If count is zero, jump to visitor
                 match count {
-                    0 => visitor.visit_seq(ArrayAccess::new(self, len, count)),
+                    0 => {
+                        // An empty array may still carry its element constructor: skip
+                        // what the size field covers beyond the count
+                        self.skip_bytes(len.saturating_sub(4))?;
+                        visitor.visit_seq(ArrayAccess::new(self, 0, count))
+                    }
                     _ => {
                         let format_code = self
                             .read_format_code()
